@@ -740,7 +740,7 @@ func (m *model) nftCreate() {
 	}
 	key := TokenKey(token, next)
 	if raw := m.preRaw(c.Caller, key); len(raw) != 0 {
-		m.mustFail(P("C07", "C02"), "the creator already holds an entry under nonce %d of %q (counter %d): the create would not be under a fresh nonce", next, token, cur)
+		m.mustFail(P("C07", "C02", "C15"), "the creator already holds an entry under nonce %d of %q (counter %d): the create would not be under a fresh nonce (the counter is behind an issued nonce)", next, token, cur)
 		return
 	}
 	roy := be(c.Args[3])
@@ -1220,7 +1220,7 @@ func (m *model) saveKeyValue() {
 			case strings.HasPrefix(k, NoncePrefix):
 				props = append(props, "C07")
 			case strings.HasPrefix(k, TokenPrefix):
-				props = append(props, "C02")
+				props = append(props, "C02", "C04") // a token entry rewritten outside the supply functions and past the freeze/pause gate
 			}
 			m.mustFail(props, "key %q begins with the protected prefix", c.Args[i])
 			return
